@@ -381,6 +381,11 @@ func checkC13(c *mc.Ctx) {
 		done := mc.ParFor(n, c.OverBudget, func(i int64) {
 			tc := cases[i]
 			c13Run(c, tc, []int{0, 0, 3, 0, 20}[i%5])
+			if c.Thorough() {
+				for _, ptr := range []int{1, 7, 50, 150} {
+					c13Run(c, tc, ptr)
+				}
+			}
 			if tc.PID == 0 || tc.PID == 0x1000 {
 				c13Write(c, tc)
 			}
